@@ -112,21 +112,52 @@ Theorem C20_labels_count : forall d cuts,
   (forall a b, a <= b -> label cuts a <= label cuts b).
 Proof. exact labels_count. Qed.
 
-(* tie-free decision values, cut = linear-interpolated percentile q (np.percentile default): #{d <= cut} = floor((N-1) q) + 1 *)
+(* exact-arithmetic specification: tie-free decision values, cut = linear-interpolated percentile q (np.percentile default
+   method, computed over the rationals): #{d <= cut} = floor((N-1) q) + 1 *)
 Theorem C20_labels_prop : forall d q, NoDup d -> d <> [] -> (0 <= q)%Q -> (q <= 1)%Q ->
   lenZ (filter (fun x => Qle_bool (inject_Z x) (percentile (sort d) q)) d) = Qfloor (inject_Z (lenZ d - 1) * q) + 1.
 Proof. exact labels_prop. Qed.
 
-(* what generate_labels returns on tie-free data: for every cut percent the code uses, the number of items above it *)
-Theorem C20_labels_class_sizes : forall d n p y, gen_labels d n p = Some y -> NoDup d ->
-  exists pcs, label_percents n p = Some pcs /\ y = map (label (cut_points d pcs)) d /\
-    forall pc, In pc pcs ->
-      lenZ (filter (fun x => qlt_bool (percentile (sort d) (pc / 100)) (inject_Z x)) d)
-      = lenZ d - 1 - Qfloor (inject_Z (lenZ d - 1) * (pc / 100)).
-Proof. exact labels_class_sizes. Qed.
+(* what generate_labels returns (np.percentile as an ORACLE: the recorded percent list and cut points, exact rationals of
+   the doubles, within the library contract checked by the model).  PARTIAL with respect to the property's wording: the
+   code computes percents and virtual indices in doubles, so the count per cut point is floor((N-1) pc/100) + 1 only when the
+   virtual index is not within 1e-9 of an integer, and within one element of it always ([count_near]); the recorded percents
+   are within 1e-9 of the requested cumulative proportions.  [separated d]: tie-free up to double rounding (distinct decision
+   values differ by more than 1e-15 relative; automatic for integer decision values below 5e14). *)
+Theorem C20_labels_class_sizes_partial : forall honour d n p rperc rcuts y,
+  gen_labels_o honour d n p rperc rcuts = Ok y -> NoDup d -> separated d ->
+  exists req rp rc, requested_percents honour n p = Some req /\
+    rp = used_part n (labels_selector honour n p) rperc /\ rc = used_part n (labels_selector honour n p) rcuts /\
+    y = map (label rc) d /\
+    Forall2 (fun a b => qclose a b = true) rp req /\
+    Forall2 (fun pc c => count_near (lenZ d) pc (lenZ (filter (fun x => Qle_bool (inject_Z x) c) d))) rp rc /\
+    (qsortedb req = true -> StronglySorted Qle rc).
+Proof. exact gen_labels_o_spec. Qed.
 
-(* class proportions match the requested distribution: tie-free decision values, non-decreasing cut percents pcs in
-   [0, 100] (cumulative requested proportions): classes 0..m together hold exactly floor((N-1) pcs_m / 100) + 1 items *)
+(* cumulative form for the code: non-decreasing requested percents: classes 0..m hold floor((N-1) pc_m/100) + 1 items, give or
+   take one when the virtual index is within 1e-9 of an integer *)
+Theorem C20_labels_cumulative_partial : forall honour d n p rperc rcuts y,
+  gen_labels_o honour d n p rperc rcuts = Ok y -> NoDup d -> separated d ->
+  exists req rp, requested_percents honour n p = Some req /\ Forall2 (fun a b => qclose a b = true) rp req /\
+    (qsortedb req = true -> forall m, (m < length rp)%nat ->
+       count_near (lenZ d) (nth m rp 0%Q) (lenZ (filter (fun yi => yi <=? Z.of_nat m) y))).
+Proof. exact gen_labels_o_cumulative. Qed.
+
+(* "class proportions match the requested distribution", literally.  Exact linear-interpolated percentile: within 1/N *)
+Theorem C20_labels_proportion : forall d q, NoDup d -> d <> [] -> (0 <= q)%Q -> (q <= 1)%Q ->
+  let cnt := lenZ (filter (fun x => Qle_bool (inject_Z x) (percentile (sort d) q)) d) in
+  (q - 1 / inject_Z (lenZ d) <= inject_Z cnt / inject_Z (lenZ d))%Q /\
+  (inject_Z cnt / inject_Z (lenZ d) <= q + 1 / inject_Z (lenZ d))%Q.
+Proof. exact labels_proportion. Qed.
+
+(* ... and for the code (any count the oracle contract admits): within 2/N of the percent np.percentile was asked for *)
+Theorem C20_labels_proportion_partial : forall N pc cnt, 1 <= N -> (0 <= pc)%Q -> (pc <= 100)%Q -> count_near N pc cnt ->
+  (pc / 100 - 2 / inject_Z N <= inject_Z cnt / inject_Z N)%Q /\ (inject_Z cnt / inject_Z N <= pc / 100 + 2 / inject_Z N)%Q.
+Proof. exact count_near_proportion. Qed.
+
+(* exact-arithmetic specification (what np.percentile computes over the rationals; equals the code whenever the double
+   computation is exact, e.g. dyadic proportions): tie-free decision values, non-decreasing cut percents pcs in [0, 100]:
+   classes 0..m together hold exactly floor((N-1) pcs_m / 100) + 1 items *)
 Theorem C20_labels_cumulative : forall d pcs m, NoDup d -> d <> [] ->
   Forall (fun pc => (0 <= pc)%Q /\ (pc <= 100)%Q) pcs -> StronglySorted Qle pcs -> (m < length pcs)%nat ->
   lenZ (filter (fun yi => yi <=? Z.of_nat m) (labels_of d (cut_points d pcs)))
@@ -142,32 +173,56 @@ Proof. exact label_percents_list. Qed.
 
 (* ---- noise (matrices column-major: one list per feature) ---- *)
 
-(* categorical: per feature, same length, at most floor(p n) cells differ, every cell is one of that feature's own values;
+(* The number of cells the code flips is int(n * p) computed in DOUBLES; its value k is an oracle answer (the size asked of
+   np.random.choice).  [kflip_spec n p k]: k is floor(n p), except that a product within 1e-9 of an integer may round to the
+   other side (then |k - floor(n p)| <= 1); k = floor(n p) whenever p has at most 20 fractional bits or n p is not within
+   1e-9 of an integer.  [cum] selects the slice variant of unique_per_label (false: as first read, true: repaired). *)
+
+(* categorical: per feature, same length, at most k cells differ, every cell is one of that feature's own values;
    for EVERY answer stream on which the model succeeds *)
-Theorem C20_noise_cat : forall cols y p inds st out,
+Theorem C20_noise_cat : forall cum cols y p k inds st out,
   Forall (fun c => lenZ c = lenZ y) cols ->
-  noise_cat cols y p inds st = Ok out ->
-  Forall2 (fun c o => length o = length c /\ diff_count c o <= nflip (lenZ y) p /\ forall v, In v o -> In v c) cols out.
+  noise_cat cum cols y p k inds st = Ok out ->
+  Forall2 (fun c o => length o = length c /\ diff_count c o <= k /\ forall v, In v o -> In v c) cols out /\
+  kflip_spec (lenZ y) p k.
 Proof. exact noise_cat_spec. Qed.
 
-Theorem C20_noise_cat_check_sound : forall cols n p out, noise_cat_check cols n p out = true ->
-  Forall2 (fun c o => length o = length c /\ diff_count c o <= nflip n p /\ forall v, In v o -> In v c) cols out.
+Theorem C20_noise_cat_check_sound : forall cols n p k out, noise_cat_check cols n p k out = true ->
+  Forall2 (fun c o => length o = length c /\ diff_count c o <= k /\ forall v, In v o -> In v c) cols out /\
+  kflip_spec n p k.
 Proof. exact noise_cat_check_sound. Qed.
 
-(* missing: every cell is unchanged or the marker; exactly floor(p n) markers per feature when the marker is not already present *)
-Theorem C20_noise_missing : forall cols n p marker st out,
+(* the clause is not vacuous: labels exactly 0..K-1 (K >= 2), admissible noise level, and - for the slices as first read -
+   at least two members per class: the call does not raise, whatever the RNG answers *)
+Theorem C20_noise_cat_progress : forall cum cols y p k inds st K,
+  uniq y = zrange 0 K -> (2 <= K)%nat -> p_ok (lenZ y) p = true ->
+  (cum = false -> forall lab, In lab (uniq y) -> 2 <= countZ lab y) ->
+  noise_cat cum cols y p k inds st <> Raises.
+Proof. exact noise_cat_progress. Qed.
+
+(* missing: every cell is unchanged or the marker; exactly k markers per feature when the marker is not already present *)
+Theorem C20_noise_missing : forall cols n p k marker st out,
   Forall (fun c => lenZ c = n) cols ->
-  noise_missing cols n p marker st = Ok out ->
-  Forall2 (fun c o => Forall2 (fun a b => b = a \/ b = marker) c o /\ (~ In marker c -> countZ marker o = nflip n p)) cols out.
+  noise_missing cols n p k marker st = Ok out ->
+  Forall2 (fun c o => Forall2 (fun a b => b = a \/ b = marker) c o /\ (~ In marker c -> countZ marker o = k)) cols out /\
+  kflip_spec n p k.
 Proof. exact noise_missing_spec. Qed.
 
-Theorem C20_noise_missing_check_sound : forall cols n p marker out, noise_missing_check cols n p marker out = true ->
-  Forall2 (fun c o => Forall2 (fun a b => b = a \/ b = marker) c o /\ (~ In marker c -> countZ marker o = nflip n p)) cols out.
+Theorem C20_noise_missing_check_sound : forall cols n p k marker out, noise_missing_check cols n p k marker out = true ->
+  Forall2 (fun c o => Forall2 (fun a b => b = a \/ b = marker) c o /\ (~ In marker c -> countZ marker o = k)) cols out /\
+  kflip_spec n p k.
 Proof. exact noise_missing_check_sound. Qed.
 
+(* what the oracle check on k gives *)
+Theorem C20_noise_count : forall n p k, kflip_ok n p k = true ->
+  nflip n p - 1 <= k <= nflip n p + 1 /\
+  (let g := (inject_Z n * p - inject_Z (nflip n p))%Q in
+   small_dyadic n p = true \/ ((eps9 <= g)%Q /\ (g <= 1 - eps9)%Q) -> k = nflip n p).
+Proof. exact kflip_ok_spec. Qed.
+
 (* stated precondition: labels must be 0..k-1 (here {1,2}: the real call raises KeyError, and so does the model) *)
-Theorem C20_noise_cat_needs_standard_labels :
-  noise_cat [[1; 4; 7; 0; 3; 9]; [20; 50; 80; 10; 30; 90]] [1; 2; 1; 2; 2; 1] (1 # 2) [0; 2; 5; 1; 3; 4] [AIdx 6 [5; 2; 4]] = Raises.
+Theorem C20_noise_cat_needs_standard_labels : forall cum,
+  noise_cat cum [[1; 4; 7; 0; 3; 9]; [20; 50; 80; 10; 30; 90]] [1; 2; 1; 2; 2; 1] (1 # 2) 3 [0; 2; 5; 1; 3; 4] [AIdx 6 [5; 2; 4]] = Raises.
 Proof. exact noise_cat_needs_standard_labels. Qed.
 
 (* ---- down-sampling ---- *)
@@ -205,13 +260,18 @@ Print Assumptions C20_info_old_refuted.
 Print Assumptions C20_labels_mono.
 Print Assumptions C20_labels_count.
 Print Assumptions C20_labels_prop.
-Print Assumptions C20_labels_class_sizes.
+Print Assumptions C20_labels_class_sizes_partial.
+Print Assumptions C20_labels_cumulative_partial.
+Print Assumptions C20_labels_proportion.
+Print Assumptions C20_labels_proportion_partial.
 Print Assumptions C20_labels_cumulative.
 Print Assumptions C20_labels_ndarray_note.
 Print Assumptions C20_noise_cat.
 Print Assumptions C20_noise_cat_check_sound.
+Print Assumptions C20_noise_cat_progress.
 Print Assumptions C20_noise_missing.
 Print Assumptions C20_noise_missing_check_sound.
+Print Assumptions C20_noise_count.
 Print Assumptions C20_noise_cat_needs_standard_labels.
 Print Assumptions C20_downsample.
 Print Assumptions C20_downsample_check_sound.
